@@ -165,7 +165,7 @@ func c16Run(plan *C16Plan) (*c16Violation, map[string]bool) {
 	}
 	defer tc.stop()
 	// wait for the handshake (ready seen by the server)
-	deadline := time.Now().Add(5 * time.Second)
+	deadline := time.Now().Add(30 * time.Second)
 	var sc *srvConn
 	for time.Now().Before(deadline) {
 		if cs := srv.connections(); len(cs) > 0 && cs[0].waitReady(10*time.Millisecond) != nil {
@@ -663,7 +663,7 @@ func c16OutputsRun(sc *C16Outputs) (*c16Violation, map[string]bool) {
 		return &c16Violation{"C16/harness/client", err.Error()}, flags
 	}
 	defer tc.stop()
-	deadline := time.Now().Add(5 * time.Second)
+	deadline := time.Now().Add(30 * time.Second)
 	ok := false
 	for time.Now().Before(deadline) {
 		if cs := srv.connections(); len(cs) > 0 && cs[0].waitReady(10*time.Millisecond) != nil {
